@@ -1023,4 +1023,150 @@ theorem universe_bound (ops : List Op) : init.nextId + (ops.filter Op.inserts).l
   have : (ops.filter Op.inserts).length + 1 ≤ universeOf ops := Nat.le_max_left _ _
   simp only [init]; omega
 
+/-! ### the maintenance call -/
+
+theorem stripC_none (ts : List (Option Op)) : stripC (none :: ts) = stripC ts := rfl
+theorem stripC_some (op : Op) (ts : List (Option Op)) : stripC (some op :: ts) = op :: stripC ts := rfl
+theorem stripC_map_some (ops : List Op) : stripC (ops.map some) = ops := by
+  induction ops with
+  | nil => rfl
+  | cons op ops ih => simp [stripC_some, ih]
+
+theorem weave_map_some {σ π : Type} (V : StepView σ π) (ops : List Op) (steps : List σ) (prev : π)
+    (hl : steps.length = ops.length) : weave V (ops.map some) steps prev = steps := by
+  induction ops generalizing steps prev with
+  | nil => cases steps with
+    | nil => rfl
+    | cons _ _ => simp at hl
+  | cons op ops ih =>
+    cases steps with
+    | nil => simp at hl
+    | cons st steps =>
+      simp only [List.map_cons, weave]
+      rw [ih steps _ (by simpa using hl)]
+
+theorem unweave_weave {σ π : Type} [BEq σ] [ReflBEq σ] (V : StepView σ π) (ts : List (Option Op)) (steps : List σ)
+    (prev : π) (i : Nat) (hl : steps.length = (stripC ts).length) :
+    unweave V ts (weave V ts steps prev) prev i = .ok steps := by
+  induction ts generalizing steps prev i with
+  | nil =>
+    cases steps with
+    | nil => rfl
+    | cons _ _ => simp [stripC] at hl
+  | cons t ts ih =>
+    cases t with
+    | none =>
+      simp only [weave, unweave, BEq.rfl, if_true]
+      exact ih steps prev (i + 1) hl
+    | some op =>
+      cases steps with
+      | nil => simp [stripC_some] at hl
+      | cons st steps =>
+        simp only [weave, unweave]
+        rw [ih steps _ (i + 1) (by simpa [stripC_some] using hl)]
+        rfl
+
+theorem weave_length {σ π : Type} (V : StepView σ π) (ts : List (Option Op)) (steps : List σ)
+    (prev : π) (hl : steps.length = (stripC ts).length) : (weave V ts steps prev).length = ts.length := by
+  induction ts generalizing steps prev with
+  | nil => rfl
+  | cons t ts ih =>
+    cases t with
+    | none => simp only [weave, List.length_cons]; rw [ih steps prev hl]
+    | some op =>
+      cases steps with
+      | nil => simp [stripC_some] at hl
+      | cons st steps =>
+        simp only [weave, List.length_cons]
+        rw [ih steps _ (by simpa [stripC_some] using hl)]
+
+theorem unweave_ok_exact {σ π : Type} [BEq σ] [LawfulBEq σ] (V : StepView σ π) (ts : List (Option Op)) (obs rest : List σ)
+    (prev : π) (i : Nat) (hl : obs.length = ts.length) (h : unweave V ts obs prev i = .ok rest) :
+    rest.length = (stripC ts).length ∧ obs = weave V ts rest prev := by
+  induction ts generalizing obs rest prev i with
+  | nil =>
+    cases obs with
+    | nil => simp only [unweave, Except.ok.injEq] at h; subst h; exact ⟨rfl, rfl⟩
+    | cons _ _ => simp at hl
+  | cons t ts ih =>
+    cases obs with
+    | nil => simp at hl
+    | cons st obs =>
+      have hl' : obs.length = ts.length := by simpa using hl
+      cases t with
+      | none =>
+        simp only [unweave] at h
+        by_cases hc : (st == V.cstep prev) = true
+        · rw [if_pos hc] at h
+          obtain ⟨h1, h2⟩ := ih obs rest prev (i + 1) hl' h
+          refine ⟨h1, ?_⟩
+          simp only [weave]
+          rw [← h2, eq_of_beq hc]
+        · rw [if_neg hc] at h; cases h
+      | some op =>
+        simp only [unweave] at h
+        cases hu : unweave V ts obs (V.setsOf st) (i + 1) with
+        | error j => rw [hu] at h; cases h
+        | ok r =>
+          rw [hu] at h
+          have : rest = st :: r := by
+            simp only [Except.map] at h
+            cases h; rfl
+          subst this
+          obtain ⟨h1, h2⟩ := ih obs r _ (i + 1) hl' hu
+          refine ⟨by simp [stripC_some, h1], ?_⟩
+          simp only [weave]
+          rw [← h2]
+
+/-- a failing step is a maintenance call, at or after the step the count started from -/
+theorem unweave_error_at {σ π : Type} [BEq σ] (V : StepView σ π) (ts : List (Option Op)) (obs : List σ)
+    (prev : π) (i j : Nat) (h : unweave V ts obs prev i = .error j) :
+    i ≤ j ∧ ts[j - i]? = some none ∧ ∃ st, obs[j - i]? = some st ∧ ∃ p, (st == V.cstep p) = false := by
+  induction ts generalizing obs prev i with
+  | nil => simp [unweave] at h
+  | cons t ts ih =>
+    cases obs with
+    | nil => cases t <;> simp [unweave] at h
+    | cons st obs =>
+      cases t with
+      | none =>
+        simp only [unweave] at h
+        by_cases hc : (st == V.cstep prev) = true
+        · rw [if_pos hc] at h
+          obtain ⟨h1, h2, s, h3, h4⟩ := ih obs prev (i + 1) h
+          have : j - i = (j - (i + 1)) + 1 := by omega
+          refine ⟨by omega, ?_, s, ?_, h4⟩
+          · rw [this]; simpa using h2
+          · rw [this]; simpa using h3
+        · rw [if_neg hc] at h
+          cases h
+          refine ⟨Nat.le_refl _, by simp, st, by simp, prev, by simpa using hc⟩
+      | some op =>
+        simp only [unweave] at h
+        cases hu : unweave V ts obs (V.setsOf st) (i + 1) with
+        | ok r => rw [hu] at h; simp [Except.map] at h
+        | error j' =>
+          rw [hu] at h
+          have : j' = j := by simp only [Except.map] at h; cases h; rfl
+          subst this
+          obtain ⟨h1, h2, s, h3, h4⟩ := ih obs _ (i + 1) hu
+          have : j' - i = (j' - (i + 1)) + 1 := by omega
+          refine ⟨by omega, ?_, s, ?_, h4⟩
+          · rw [this]; simpa using h2
+          · rw [this]; simpa using h3
+
+theorem traceC_eq_weave {σ π : Type} (V : StepView σ π) (enc : Obs → σ) (k : Nat) (e : Engine) (prev : π)
+    (ts : List (Option Op)) : traceC V enc k e prev ts = weave V ts ((trace k e (stripC ts)).map enc) prev := by
+  induction ts generalizing e prev with
+  | nil => rfl
+  | cons t ts ih =>
+    cases t with
+    | none => simp only [traceC, weave, stripC_none]; rw [ih]
+    | some op => simp only [traceC, stripC_some, trace, List.map_cons, weave]; rw [ih]
+
+theorem trace_length (k : Nat) (e : Engine) (ops : List Op) : (trace k e ops).length = ops.length := by
+  induction ops generalizing e with
+  | nil => rfl
+  | cons op ops ih => simp [trace, ih]
+
 end C08
